@@ -219,6 +219,21 @@ Unknowns(S, T, m) ==
               ELSE IF fd.c = "map" /\ fd.mv = "message" THEN [j \in 1..Len(x.kv) |-> Unknowns(S, fd.mt, x.kv[j].v.m[1])]
               ELSE <<>>]]
 
+\* Unknown bytes up to the encoding of their keys.  Both Go runtimes re-encode the key of an unknown field minimally when they keep it
+\* (generated code and the reference parse keep the bytes as they came): two messages are the same message when their unknown fields
+\* agree in number, wire type and payload, in order.
+RECURSIVE CanonKeysFrom(_, _)
+CanonKeysFrom(u, p) == IF p >= Len(u) THEN <<>>
+                       ELSE LET f == FieldAt(u, p) IN
+                            IF ~f.ok THEN Slice(u, p, Len(u))                  \* (not a field sequence: left as it is)
+                            ELSE EncKey(f.fn, f.wt) \o Slice(u, p + VarintAt(u, p).n, f.end) \o CanonKeysFrom(u, f.end)
+CanonKeys(u) == CanonKeysFrom(u, 0)
+RECURSIVE CanonUnknowns(_)
+CanonUnknowns(t) == [u |-> CanonKeys(t.u),
+                     sub |-> [i \in 1..Len(t.sub) |-> [j \in 1..Len(t.sub[i]) |-> CanonUnknowns(t.sub[i][j])]]]
+\* equality of two abstract messages of type T up to the key encoding of unknown fields
+SameMessage(S, T, a, b) == Known(S, T, a) = Known(S, T, b) /\ CanonUnknowns(Unknowns(S, T, a)) = CanonUnknowns(Unknowns(S, T, b))
+
 (***************************************************************************)
 (* The canonical encoding of an abstract message: fields in schema order,  *)
 (* packing as declared, map entries with key and value always present,     *)
